@@ -189,6 +189,7 @@ def check(rep, an, tier):
                 "n_layers": "n_layers", "mask": "mask", "lbp": "lbp", "ubp": "ubp", "seed": "seed", "subsample": "subsample",
                 "equal_l1norm_constraint": "equal_l1norm_constraint", "max_iter": "max_iter", "xtol": "xtol", "ftol": "ftol"})
     F.wrapper_returns_solution(rep, res, "ReceptorEstimator.fit_decomposition", {"lsq_linear_decomposition"}, ("X", "P", "B"))
+    F.qty(rep, res, "ReceptorEstimator.fit_decomposition")
     rep.require("R-FLOW", 60)
     rep.require("R-TYPESTATE", 30)
     rep.require("R-SEED", 8)
